@@ -547,12 +547,16 @@ func RunEnvCase(seed int64, exe, workDir string) *HistResult {
 		env  map[string]string
 	}
 	nPipes := 1 + r.Intn(3)
+	reloadCase := seed%3 == 1
 	var specs []gen.PipeSpec
 	pipeEnv := map[string]map[string]string{}
 	taskEnvs := map[string][]taskEnvSpec{}
 	for p := 0; p < nPipes; p++ {
 		pname := fmt.Sprintf("p%d", p)
 		def := definition.PipelineDef{Concurrency: 3, Tasks: map[string]definition.TaskDef{}, SourcePath: "gen", ContinueRunningTasksAfterFailure: true}
+		if reloadCase {
+			def.Concurrency = 1
+		}
 		pe := map[string]string{}
 		for _, n := range names {
 			if n == "PXV_A_TOKEN" || n == "TASK_NAME_EXTRA" || n == "PXV_TASKONLY" {
@@ -606,6 +610,8 @@ func RunEnvCase(seed int64, exe, workDir string) *HistResult {
 		sort.Strings(g.Names)
 		specs = append(specs, gen.PipeSpec{Name: pname, Def: def, Graph: g})
 	}
+	// a name that no level defines (a reload introduces it later): it must stay absent for the jobs accepted before
+	names = append(names, "PXV_NEW_AFTER_RELOAD")
 	sys, out, _, err := realSys(specs, dir, 300*time.Millisecond)
 	if err != nil {
 		res.Inconclusive = err.Error()
@@ -639,6 +645,32 @@ func RunEnvCase(seed int64, exe, workDir string) *HistResult {
 			return res
 		}
 		jobs = append(jobs, jobInfo{id, sp.Name, tv, opt, i})
+	}
+	if reloadCase {
+		// the definitions are replaced while most of these jobs still wait (concurrency 1): every level of environment
+		// changes, one name disappears, one appears. Jobs that were accepted before see none of it.
+		var changed []gen.PipeSpec
+		for _, sp := range specs {
+			nd := gen.CopyPipeDef(sp.Def)
+			ne := map[string]string{"PXV_NEW_AFTER_RELOAD": "reloaded"}
+			for k, v := range nd.Env {
+				if k != "PXV_A" {
+					ne[k] = "reloaded:" + v
+				}
+			}
+			nd.Env = ne
+			for tn, td := range nd.Tasks {
+				te := map[string]string{}
+				for k, v := range td.Env {
+					te[k] = "reloaded:" + v
+				}
+				td.Env = te
+				nd.Tasks[tn] = td
+			}
+			changed = append(changed, gen.PipeSpec{Name: sp.Name, Def: nd, Graph: sp.Graph})
+		}
+		sys.Replace(0, gen.BuildDefs(changed), "all environment levels changed")
+		res.sit("C18", "definitions replaced while jobs wait")
 	}
 	// a job that passes the reserved variable name, naming the first job: it must not run anything nor touch that job
 	victim := jobs[0]
